@@ -11,7 +11,7 @@ def run(tier, seed):
     except ImportError:
         pass
     from ..propbase import deductive
-    deductive(rep, "C16", ["markdown_it.helpers.parse_link_title.parseLinkTitle"], "contracts.helpers")
+    deductive(rep, "C16", ["markdown_it.helpers.parse_link_title.parseLinkTitle", "markdown_it.helpers.parse_link_destination.parseLinkDestination"], "contracts.helpers")
     cfgs = ["commonmark", "js-default"]
     gen_universe(rep, "vf.oracles2:c16_refs", "vf.oracles2:gen_c16_refs", tier, "rules_block.reference / MarkdownIt.render", "render(D, env seeded by R) == render(R + blank + D); same records (first wins, duplicates)",
                  cfgs, "definition documents x using documents (incl. duplicates, multi-line titles, container-nested definitions); distinct = distinct (refs, dups, output prefix)", "R x D")
